@@ -1,18 +1,20 @@
 /* C12 tier B: spiftool_split produces exactly the token list of the quoting grammar, for every input of
- * length <= 7 over {a, b, space, ':', ''', '"', '\'} and the delimiter sets NULL / ":" / " :";
- * it never reads beyond the terminator of the input or of the delimiter set (input and set live in
- * exact-size objects) and writes only into its own allocations; the result array is NULL-terminated
- * exactly after the last token; no token is longer than the input.
+ * length <= 5 (quick tier) / <= 7 (thorough tier) over {a, b, space, ':', ''', '"', '\'} and the
+ * delimiter sets NULL / ":" / " :"; it never reads beyond the terminator of the input or of the delimiter
+ * set (both end at the last byte of their objects), leaves the input unchanged (ghost index) and writes no
+ * byte beyond the requested size of any block it allocates (ghost-index canary of env_split.h, checked at
+ * every realloc and on every returned block); the result array is NULL-terminated right after the last
+ * token.
  *
- * The real strings.c is executed on the real (loop) strlen/strchr of env_split.h, cbmc's own
- * malloc/realloc/free; all loops unwound (--unwind 10 with unwinding assertions).
- *
+ * The real strings.c is executed on the loop strlen/strchr and the fat-block malloc/realloc of
+ * env_split.h and cbmc's own free; all loops unwound (--unwind 8 / 10 with unwinding assertions).
  * strings.c is included as "../src/strings.c" (= $REPO/include/../src/strings.c, the unannotated file of
  * the tree under check; B units apply no loop contracts).
  *
- * Input classes with their own assertion names (so that a known defect of one class cannot hide a
- * regression in another): "mixed quotes" = a quote character of the other kind occurs inside quotes;
- * "trailing backslash" = the input ends in an unescaped backslash; "plain" = neither. */
+ * Input classes, one unit each per delimiter set (disjoint harness assumptions, so that a known defect of
+ * one class cannot hide a regression in another): "mixed" = a quote character of the other kind occurs
+ * inside quotes; "trailbs" = the input ends in an unescaped backslash (and is not mixed); "plain" = neither.
+ * This is the stand-in for the missing tier P unit of spiftool_split (see prop.json). */
 
 /*@unit
 name: split.grammar.ws.plain
